@@ -246,6 +246,30 @@ class SessionSim(Sim):
                 n += 1
                 if n > 40:
                     break
+            # ILIs of every synset handed out by taxonomy functions, the simulated root and
+            # inferred placeholders included, belong to the selection too
+            k0 = 0
+            for path in ss.hypernym_paths(simulate_root=True):
+                k0 += 1
+                if k0 > 6:
+                    break
+                for node in path:
+                    ili = node.ili
+                    if ili is None:
+                        continue
+                    if node.id in (INFERRED, '*ROOT*'):
+                        ok_ili = (node.id == INFERRED and ili.id is not None
+                                  and ili.id == node._ili)
+                    elif ili.id is None:
+                        ok_ili = (self.m.idx[lexspec(node)].synset[node.id].get('ili') == 'in')
+                    else:
+                        ok_ili = (self.m.idx[lexspec(node)].synset[node.id].get('ili')
+                                  == ili.id)
+                    if not ok_ili:
+                        raise self.v('membership', 'a synset obtained through hypernym_paths('
+                                     'simulate_root=True) reports an ILI that is not its own',
+                                     {'cfg': ctx['cfg'], 'origin': repr(ss), 'node': repr(node),
+                                      'ili': [ili.id, ili.status, ili.definition()]})
             if not ctx['E']:
                 for r, t in ss.relation_map().items():
                     if r.lexicon().specifier() not in (allowed(home) if default else S):
@@ -835,7 +859,10 @@ class SessionSim(Sim):
         if not default and len(bases) != 1:
             return
         own_img = m.image(S, relations=True, default_mode=default)
-        for ss in w.synsets():
+        all_ss = w.synsets()
+        if len(all_ss) > 150:          # big universe: the hub + a seeded sample
+            all_ss = all_ss[:2] + rng.sample(all_ss[2:], 12)
+        for ss in all_ss:
             key = observe.ekey(ss)
             owner = key.split('|')[0]
             lexscope = [x for x in m.family(owner) if x in m.installed] if default else S
@@ -911,7 +938,8 @@ class SessionSim(Sim):
                               'extra': sorted(keys_got - keys_want)[:3]})
             # hypernym_paths terminates (budget) through placeholders
             n = 0
-            for _ in ss.hypernym_paths():
-                n += 1
-                if n > 200:
-                    break
+            if len(all_ss) <= 150:
+                for _ in ss.hypernym_paths():
+                    n += 1
+                    if n > 200:
+                        break
